@@ -16,18 +16,22 @@ const PROGRAMS: [&str; 5] = [
     ".orig x3000\nADD R0,R0,#1\nADD R1,R0,R0\nADD R2,R1,R0\nNOT R3,R2\nHALT\n.end",
 ];
 /// handler: saves/restores R0,R1 on the supervisor stack, bumps its counter, clobbers CC, RTI
-fn handler(at: u16, extra: &str) -> String {
+pub fn handler(at: u16, extra: &str) -> String {
     format!(".orig x{at:04X}\nADD R6,R6,#-1\nSTR R0,R6,#0\nADD R6,R6,#-1\nSTR R1,R6,#0\n{extra}LD R0, CNT\nADD R0,R0,#1\nST R0, CNT\nAND R1,R1,#0\nNOT R1,R1\nLDR R1,R6,#0\nADD R6,R6,#1\nLDR R0,R6,#0\nADD R6,R6,#1\nRTI\nCNT .fill 0\nKBDRP .fill xFE02\nBUF .blkw 1\n.end")
 }
 const H_A: u16 = 0x1F00; const H_B: u16 = 0x1F40; const H_KB: u16 = 0x1F80; const H_T: u16 = 0x1FC0;
 
-const KB_EXTRA: &str = "LDI R0, KBDRP\nST R0, BUF\n";
+const KB_EXTRA: &str = "LDI R0, KBDRP\nST R0, BUF\nTRAP x40\n";
+/// handlers A, the keyboard's and the timer's call a service routine through TRAP x40 (installed at x1E00: two instructions and RTI), so
+/// requests also arrive while an ISR is inside a trap routine: a TRAP must not change the priority level the ISR runs at.
+const TRAP_EXTRA: &str = "TRAP x40\n";
+const SERVICE: [(u16, u16); 4] = [(0x0040, 0x1E00), (0x1E00, 0x5260), (0x1E01, 0x1261), (0x1E02, 0x8000)];
 /// address of the handler's counter cell, through the assembler's symbol table
 fn cnt_addr(at: u16, extra: &str) -> u16 {
     let src = handler(at, extra);
     lc3_ensemble::asm::assemble_debug(parse_ast(&src).unwrap(), &src).unwrap().symbol_table().unwrap().lookup_label("CNT").unwrap()
 }
-fn image(src: &str) -> Vec<(u16, u16)> {
+pub fn image(src: &str) -> Vec<(u16, u16)> {
     let o = assemble(parse_ast(src).expect("harness program parses")).expect("harness program assembles");
     o.addr_iter().map(|(a, w)| (a, w.unwrap_or(0))).collect()
 }
@@ -36,8 +40,8 @@ fn imgs() -> &'static Imgs {
     static I: OnceLock<Imgs> = OnceLock::new();
     I.get_or_init(|| Imgs {
         progs: PROGRAMS.iter().map(|s| image(s)).collect(),
-        ha: image(&handler(H_A, "")), hb: image(&handler(H_B, "")),
-        hkb: image(&handler(H_KB, KB_EXTRA)), ht: image(&handler(H_T, "")),
+        ha: image(&handler(H_A, TRAP_EXTRA)), hb: image(&handler(H_B, "")),
+        hkb: image(&handler(H_KB, KB_EXTRA)), ht: image(&handler(H_T, TRAP_EXTRA)),
     })
 }
 fn machine(prog: usize) -> Machine {
@@ -48,6 +52,7 @@ fn machine(prog: usize) -> Machine {
     m.pokes.extend(im.progs[prog].iter().copied());
     for h in [&im.ha, &im.hb, &im.hkb, &im.ht] { m.pokes.extend(h.iter().copied()); }
     m.pokes.extend([(0x0190, H_A), (0x0191, H_B), (0x0180, H_KB), (0x0192, H_T)]);
+    m.pokes.extend(SERVICE);
     m
 }
 
@@ -101,7 +106,7 @@ fn run(prog: usize, v: &Variant) -> Result<Final, (String, String)> {
     if let Some(e) = compare_memory(&p) { return Err((e.0, format!("{what}: {}", e.1))); }
     let im = imgs();
     let _ = im;
-    let counters = [p.sim.mem[cnt_addr(H_A, "")].get(), p.sim.mem[cnt_addr(H_B, "")].get(), p.sim.mem[cnt_addr(H_KB, KB_EXTRA)].get(), p.sim.mem[cnt_addr(H_T, "")].get()];
+    let counters = [p.sim.mem[cnt_addr(H_A, TRAP_EXTRA)].get(), p.sim.mem[cnt_addr(H_B, "")].get(), p.sim.mem[cnt_addr(H_KB, KB_EXTRA)].get(), p.sim.mem[cnt_addr(H_T, TRAP_EXTRA)].get()];
     if let Variant::Devices { .. } = v {
         if counters[0] as u64 != raised[0] || counters[1] as u64 != raised[1] { return Err(("requests-lost-or-duplicated".into(), format!("{what}: handlers ran {}/{} times, requests raised {}/{}", counters[0], counters[1], raised[0], raised[1]))); }
         if taken != raised[0] + raised[1] { return Err(("taken-count".into(), format!("{what}: {taken} interrupts taken, {} raised", raised[0] + raised[1]))); }
@@ -142,7 +147,7 @@ fn schedule(mut s: u64, k: usize, slots: u64) -> Option<Vec<(u64, u8)>> {
 }
 
 pub fn run_engine(ctx: &Ctx) -> Report {
-    let mut rep = Report::new("5 user programs (arithmetic loop branching on every CC; LD/ST/LDR/STR/LDI/STI; nested JSR with a stack through R6; PUTS and OUT so that requests land inside OS code; straight line) ending in HALT; two harness devices (vectors x90/x91, level-triggered until taken) with priority pairs from {1,4,7}^2 (unequal); schedules: every placement of 0,1,2 (thorough 3 on the shorter programs) request-raise events over (poll index x device) up to the program's length; plus the real keyboard interrupt (IE set, bytes typed by 'another thread' before every pair of polls) and the real TimerDevice with exact n=1..baseline+1. Every run is in lock-step with RefLC3 (gating: taken iff priority > PSR priority and highest wins; entry: supervisor bit, priority, PC = mem[x100+v], R6 = SSP-2, pushed PC/PSR, saved SP, instruction count unchanged) and its final R0-R7, CC, user memory and output are compared with the 0-interrupt run; handler counters = requests raised. non-trivial = schedules in which an interrupt was taken");
+    let mut rep = Report::new("5 user programs (arithmetic loop branching on every CC; LD/ST/LDR/STR/LDI/STI; nested JSR with a stack through R6; PUTS and OUT so that requests land inside OS code; straight line) ending in HALT; two harness devices (vectors x90/x91, level-triggered until taken; the first one's, the keyboard's and the timer's handlers call a service routine through TRAP x40, so requests also arrive while an ISR is inside a trap routine) with priority pairs from {1,4,7}^2 (unequal); schedules: every placement of 0,1,2 (thorough 3 on the shorter programs) request-raise events over (poll index x device) up to the program's length; plus the real keyboard interrupt (IE set, bytes typed by 'another thread' before every pair of polls) and the real TimerDevice with exact n=1..baseline+1. Every run is in lock-step with RefLC3 (gating: taken iff priority > PSR priority and highest wins; entry: supervisor bit, priority, PC = mem[x100+v], R6 = SSP-2, pushed PC/PSR, saved SP, instruction count unchanged) and its final R0-R7, CC, user memory and output are compared with the 0-interrupt run; handler counters = requests raised. non-trivial = schedules in which an interrupt was taken");
     let base = baselines();
     let npr = ctx.pick(3usize, 6usize);
     for prog in 0..PROGRAMS.len() {
